@@ -214,6 +214,37 @@ theorem uses_is_copy (env : Env) (fuel : Nat) (root : Mod) (inner : List Stmt) (
   · rw [Lemmas.Uses.inp_withDir, Lemmas.Uses.inp_addErrs]
   · rw [Lemmas.Uses.out_withDir, Lemmas.Uses.out_addErrs]
 
+/-- **container_gets_copy.**  The same for `toEntry` itself: a `container` statement with one
+`uses` substatement that binds to `r` gets, as its first children, exactly the grouping's own data
+nodes computed in the grouping's defining scope; what the container's other substatements add
+follows (a clash of one of those with a grouping name is a duplicate-key error and the grouping's
+node stays).  `Lemmas.Uses.toEntry_list_uses_first`, `…_case_…`, `…_input_…`, `…_output_…`,
+`…_notification_…` say the same about the other statements the generator puts `uses` into. -/
+theorem container_gets_copy (env : Env) (fuel : Nat) (root : Mod) (inner : List Stmt) (n u : Stmt)
+    (visiting : List NodeId) (st : TState) (r : GroupingRef) (hn : n.kw = "container") (hu : u.kw = "uses")
+    (huses : n.all "uses" = [u]) (hinner : ∀ x ∈ inner, isModuleStmt x = false)
+    (hwf : WellFormedRef root (n :: inner) u.arg) (hfuel : bindFuel env.reg root (n :: inner) ≤ 2 * fuel + 16)
+    (hbind : bindGrouping env.reg env.linked root (n :: inner) u.arg = some r)
+    (hnodup : ((denoteGrouping env fuel r visiting st).map (·.name)).Nodup) :
+    ∃ tail, (toEntry env (fuel + 2) root (inner ++ [root.stmt]) n visiting st).1.dir =
+      denoteGrouping env fuel r visiting st ++ tail := by
+  have hinner' : ∀ x ∈ n :: inner, isModuleStmt x = false := by
+    intro x hx
+    rcases List.mem_cons.1 hx with rfl | hx
+    · simp [isModuleStmt, hn]
+    · exact hinner x hx
+  obtain ⟨tail, ht⟩ := Lemmas.Uses.toEntry_container_uses_first env (fuel + 1) root (inner ++ [root.stmt]) n visiting st hn
+  have hc := uses_is_copy env fuel root (n :: inner) u visiting (Lemmas.Uses.dir0 root n, st) r hu hinner' hwf hfuel hbind
+    (by intro v _; simp [names, Lemmas.Uses.dir0, Entry.dir]) hnodup
+  simp only at hc
+  rw [huses, List.foldl_cons, List.foldl_nil] at ht
+  refine ⟨tail, ?_⟩
+  rw [ht]
+  have h1 := hc.1
+  simp only [List.cons_append] at h1
+  rw [h1]
+  simp [Lemmas.Uses.dir0, Entry.dir]
+
 /-- **uses_adds_only_copies.**  Without the freshness assumptions (a name collision is an error
 recorded on the using entry and the colliding child is dropped): every child of the using entry
 after the step is one of its former children or one of the grouping's own children, unchanged.
@@ -403,6 +434,10 @@ example : ((conv m [mS] gS).getAt [.child "a"]).map (fun e => (e.d.nodeMod, e.d.
 example : ∀ v ∈ denoteGrouping env 40 (gS, m, [mS]) [] {}, v.name ∉ names (Entry.mk {} [] [] []) := by
   intro v _; simp [names, Entry.dir]
 example : ((denoteGrouping env 40 (gS, m, [mS]) [] {}).map (·.name)).Nodup := by decide +kernel
+-- `container_gets_copy` applies to c1
+example : ∃ tail, (toEntry env 42 m ([] ++ [m.stmt]) c1 [] {}).1.dir = denoteGrouping env 40 (gS, m, [mS]) [] {} ++ tail :=
+  container_gets_copy env 40 m [] c1 u1 [] {} (gS, m, [mS]) rfl rfl rfl (by simp) (Or.inl (by decide)) (by decide) rfl
+    (by decide +kernel)
 end Ex
 
 end Goyang.Props.C06
